@@ -261,10 +261,14 @@ IsInt(x) ==
 IsReal(V, x) ==
   \/ x \in {<<"INF">>, <<"mi", "INF">>, <<"NAN">>}
   \/ LET y == Unsigned(x)
-         hasexp == y # <<>> /\ y[Len(y)] \in {"ex", "ex2"}
-         m == IF hasexp THEN SubSeq(y, 1, Len(y) - 1) ELSE y
+         es == {i \in DOMAIN y : y[i] \in {"ex", "ex2"}}
+         e == IF es = {} THEN Len(y) + 1 ELSE MinOf(es)
+         hasexp == es # {}        \* exponent lexeme, more digits may follow
+         expok == Cardinality(es) <= 1 /\ DigitsOpt(SubSeq(y, e + 1, Len(y)))
+         m == SubSeq(y, 1, e - 1)
          dots == {i \in DOMAIN m : m[i] = "dot"}
-     IN IF Cardinality(dots) = 1
+     IN expok /\
+        IF Cardinality(dots) = 1
         THEN LET d == CHOOSE i \in dots : TRUE
              IN DigitsOpt(SubSeq(m, 1, d - 1)) /\
                 Digits(SubSeq(m, d + 1, Len(m)))
